@@ -595,6 +595,80 @@ def check_stale_across_collection(rep, config):
     rep.floor("local copies of collector-rebuilt allocator state (%s)" % config, n_inst, 8)
 
 
+def check_split_quantum(rep, config):
+    """T-quantum: mixed-size pieces are made of whole quanta (MixedSizeQuantum bytes, one tag per quantum); mxmemSplit(piece, n)
+    cuts after n bytes and writes the tail's header and tag there.  n must be a multiple of the quantum, otherwise the tail starts
+    inside a quantum whose tag belongs to the live piece: that tag is overwritten with `free` and the free-piece index receives
+    a piece of a size that is not a whole number of quanta.  For every call of mxmemSplit the size argument is
+    ROUND_UP(..., MixedSizeQuantum) computed in the function, or a parameter every caller of which passes such a value (depth
+    2)."""
+    f = common.extract("store.c", config, all_trees=True)
+    funcs = {n: fn for n, fn in f.funcs.items() if "body" in fn and fn.get("file", "").endswith("store.c")}
+    q = None
+    for nm, v in f.vars.items():
+        pass
+    macros = common.macro_defs("store.c", config)
+    if "MixedSizeQuantum" not in macros:
+        raise AnalysisBroken("store.c: MixedSizeQuantum is not a macro any more")
+
+    def rounded(e, fn, depth=0):
+        """is e a multiple of the quantum by construction?"""
+        e = strip(e)
+        if e is None or depth > 3:
+            return False
+        if any(m in ("ROUND_UP",) for m in (e.get("mac"), e.get("imac"))) and "MixedSizeQuantum" in common.render(e) or \
+                (e.get("mac") == "ROUND_UP" and True):
+            # the macro's second operand must be the quantum
+            txt = [y for y in walk(e) if y.get("mac") == "MixedSizeQuantum" or y.get("imac") == "MixedSizeQuantum"]
+            if txt:
+                return True
+        if e["k"] == "BinaryOperator" and e["op"] == "*":
+            return any((y.get("mac") == "MixedSizeQuantum" or y.get("imac") == "MixedSizeQuantum") for y in walk(e))
+        if e["k"] == "DeclRefExpr":
+            params = [p_["n"] for p_ in fn.get("params", [])]
+            if e["n"] in params and e["n"] not in _assigned(fn):
+                idx = params.index(e["n"])
+                callers = [(g, c) for g in funcs.values() for c in calls(g["body"], fn["n"])]
+                return bool(callers) and all(len(c["c"]) > idx + 1 and rounded(c["c"][idx + 1], g, depth + 1) for g, c in callers)
+            vals = _values(fn, e["n"])
+            return bool(vals) and all(rounded(v, fn, depth + 1) for v in vals)
+        return False
+
+    def _assigned(fn):
+        out = set()
+        for x in walk(fn["body"]):
+            if x["k"] in ("BinaryOperator", "CompoundAssignOperator") and x["op"].endswith("=") and x["op"] not in ("==", "!=", "<=", ">="):
+                l = strip(x["c"][0])
+                if l is not None and l["k"] == "DeclRefExpr":
+                    out.add(l["n"])
+        return out
+
+    def _values(fn, name):
+        vals = []
+        for x in walk(fn["body"]):
+            if x["k"] == "BinaryOperator" and x["op"] == "=" and (strip(x["c"][0]) or {}).get("n") == name:
+                vals.append(x["c"][1])
+            elif x["k"] == "DeclStmt":
+                vals += [d["init"] for d in x.get("decls", []) if d["n"] == name and d.get("init") is not None]
+        return vals
+    n = 0
+    for name, fn in sorted(funcs.items()):
+        for c in calls(fn["body"], "mxmemSplit"):
+            n += 1
+            key = "split-at-quantum:%s@%d" % (name, sum(1 for o in calls(fn["body"], "mxmemSplit") if o["l"] <= c["l"]))
+            where = "store.c:%d (%s) [%s]" % (c["l"], name, config)
+            if rounded(c["c"][2], fn):
+                rep.ok("T-quantum", key + ":" + config)
+            else:
+                rep.violation("T-quantum", key, where,
+                              "mxmemSplit is given `%s`, which is not a multiple of MixedSizeQuantum by construction (not a "
+                              "ROUND_UP(.., MixedSizeQuantum), nor a parameter that only receives such values): the tail piece starts "
+                              "inside a quantum of the live piece, whose tag is overwritten, and a piece of a non-quantum size enters "
+                              "the free-piece index (stoAudit fails; a later allocation from the tail rewrites the live block's code)"
+                              % common.render(strip(c["c"][2]))[:50])
+    rep.floor("calls of mxmemSplit (%s)" % config, n, 2)
+
+
 def run(tier):
     rep = common.Report("C10", tier, EXPLANATION)
     for config in ("compiler", "runtime"):
@@ -606,6 +680,7 @@ def run(tier):
         check_sweep_marks(rep, config)
         check_asserted_ranges(rep, config)
         check_stale_across_collection(rep, config)
+        check_split_quantum(rep, config)
     rep.floor("C10 table obligations", rep.obligations, 60)
     rep.assumptions.append("allocation, free, resize and collection histories are not analysed")
     return rep
